@@ -104,7 +104,10 @@ def gen_grid(rng, kind, N):
     if kind == 'free':
         return {'kind': 'free'}
     if kind == 'density_poly':
-        return {'kind': 'density_poly', 'coef': [rng.choice([0.5, 1, 2]), rng.choice([0, 1, 3]), rng.choice([0, 2, 6])]}
+        co = [rng.choice([0.5, 1, 2]), rng.choice([0, 1, 3]), rng.choice([0, 2, 6])]
+        if co[1] == 0 and co[2] == 0:
+            co[2] = 2        # DensityGrid needs an expression in one symbolic variable (a constant has none)
+        return {'kind': 'density_poly', 'coef': co}
     if kind == 'dense_edges':
         return {'kind': 'dense_edges', 'multiplier': rng.choice([2, 5, 10, 20]), 'edge_frac': rng.choice([0.1, 0.2, 0.3])}
     if kind == 'uniform_locT':
